@@ -10,6 +10,11 @@ from .. import quant
 from .functional import CUBE_F, CUBE_V, TET_F, TET_V
 
 CEL_BASED = {"Cylinder", "Circle", "CylinderSegment"}
+PYR_F = np.array([[0, 2, 1], [0, 3, 2], [0, 1, 4], [1, 2, 4], [2, 3, 4], [3, 0, 4]])          # base (two facets, listed first), then the four sides
+
+
+def PYR_V(apex_z):
+    return np.array([[-0.6, -0.6, -0.3], [0.6, -0.6, -0.3], [0.6, 0.6, -0.3], [-0.6, 0.6, -0.3], [0.0, 0.0, apex_z]])
 
 
 def palette(magpy, r):
@@ -44,12 +49,15 @@ def palette(magpy, r):
         16: m.current.Polyline(vertices=[(-0.8, 0.2, -0.3), (0.9, 0.1, -0.3), (0.7, 1.1, 0.2), (-0.9, 0.8, 0.4), (-0.8, 0.2, -0.3)], current=-2.1, **pose(2)),
         15: m.magnet.TriangularMesh(vertices=(CUBE_V - 0.5) * np.array([2.0, 1.2, 0.8]), faces=CUBE_F, polarization=(-0.2, 0.25, 0.1), **pose(1)),
         14: m.magnet.Tetrahedron(vertices=[(-0.6, -0.5, -0.4), (0.9, -0.4, -0.5), (0.0, 0.8, -0.4), (0.1, 0.0, 0.9)], polarization=(-0.2, 0.1, 0.4), **pose(2)),
+        # two pyramids on the SAME base (same face count, identical leading facets), different height and polarization
+        17: m.magnet.TriangularMesh(vertices=PYR_V(0.0), faces=PYR_F, polarization=(0.2, -0.1, 0.3), position=(0, 0, 0)),
+        18: m.magnet.TriangularMesh(vertices=PYR_V(0.9), faces=PYR_F, polarization=(-0.1, 0.3, 0.2), position=(0, 0, 0)),
     }
     return pal
 
 
 # a point strictly inside palette entry i but outside most others (local = global: static copies at the first pose, tiny offsets)
-INSIDE = {15: (0.8, 0.1, 0.1), 1: (0.5, 0.45, 0.5), 2: (0.1, 0.05, 0.6), 5: (0.5, 0.2, 0.02), 6: (0.1, 0.2, 0.1), 7: (0.4, 0.5, 0.3), 8: (0.3, 0.3, 0.3), 9: (0.2, 0.2, 0.3),
+INSIDE = {17: (0.1, 0.05, -0.2), 18: (0.05, 0.1, 0.4), 15: (0.8, 0.1, 0.1), 1: (0.5, 0.45, 0.5), 2: (0.1, 0.05, 0.6), 5: (0.5, 0.2, 0.02), 6: (0.1, 0.2, 0.1), 7: (0.4, 0.5, 0.3), 8: (0.3, 0.3, 0.3), 9: (0.2, 0.2, 0.3),
           10: (0.05, 0.05, 0.05), 14: (0.1, 0.0, 0.0)}
 
 
@@ -117,48 +125,52 @@ def batch_events(args):
                       n += 1
             elif st["kind"] == "batch":
                 arr = list(st["arr"])
-                field = "BHJM"[(j + len(arr)) % 4]
-                fn = getattr(magpy, "get" + field)
-                srcs = [pal[i] for i in arr]
-                sg = [[single(i, k, field) for k in range(len(sens))] for i in arr]          # the single calls come first: they must succeed
-                classes = {type(pal[i]).__name__ for i in arr}
-                try:
-                    T = np.asarray(fn(srcs, sens, squeeze=False), dtype=float)                           # (L, M, K, P, 3)
-                    raised = ""
-                except Exception as e:      # noqa: BLE001 - a valid call that fails only in this composition is an observation
-                    T, raised = np.zeros((0,)), f"{type(e).__name__}: {e}"[:120]
-                s = quant.gross(T, *[x for row in sg for x in row])
-                finT, finS = bool(np.isfinite(T).all()), all(bool(np.isfinite(x).all()) for row in sg for x in row)
-                ev = {"tid": tid0 + n, "kind": "batch", "what": "+".join(type(pal[i]).__name__ for i in arr) + (" " + raised if raised else ""), "arr": arr, "field": field,
-                      "T": quant.q12(T, s), "single": [[quant.q12(x, s) for x in row] for row in sg],
-                      "same": not (classes & CEL_BASED), "fin": finT and finS, "finT": finT, "finS": finS, "raised": bool(raised)}
-                f.write(json.dumps(ev, separators=(",", ":")) + "\n")
-                n += 1
-                if raised:
-                    continue
-                # superposition (C05): the summed-up call and the collection equal the sum of the SINGLE-source calls
-                if len(arr) > 1 and field in "BH":
-                    Mx = T.shape[1]
-
-                    def alone(i):
-                        a = np.asarray(fn(pal[i], sens, squeeze=False), dtype=float)[0]           # (M_i, K, P, 3); shorter paths are static beyond their end
-                        if a.shape[0] < Mx:
-                            a = np.concatenate([a, np.repeat(a[-1:], Mx - a.shape[0], axis=0)])
-                        return a.reshape(-1, 3)
-                    whole = np.asarray(fn(srcs, sens, sumup=True, squeeze=False), dtype=float).reshape(-1, 3)
-                    parts = [alone(i) for i in arr]
-                    s2 = quant.gross(whole, *parts)
-                    ev = {"tid": tid0 + n, "kind": "super", "what": "sumup:" + "+".join(type(pal[i]).__name__ for i in arr), "field": field, "whole": quant.q12(whole, s2),
-                          "parts": [quant.q12(p, s2) for p in parts], "fin": bool(np.isfinite(whole).all())}
+                field0 = "BHJM"[(j + len(arr)) % 4]
+                same_class = len(arr) > 1 and len({type(pal[i]).__name__ for i in arr}) == 1
+                # several sources of ONE class are one vectorised group: always also B and H (superposition is judged on those)
+                fields = [field0] + ([x for x in "BH" if x != field0] if same_class else [])
+                for field in fields:
+                    fn = getattr(magpy, "get" + field)
+                    srcs = [pal[i] for i in arr]
+                    sg = [[single(i, k, field) for k in range(len(sens))] for i in arr]          # the single calls come first: they must succeed
+                    classes = {type(pal[i]).__name__ for i in arr}
+                    try:
+                        T = np.asarray(fn(srcs, sens, squeeze=False), dtype=float)                           # (L, M, K, P, 3)
+                        raised = ""
+                    except Exception as e:      # noqa: BLE001 - a valid call that fails only in this composition is an observation
+                        T, raised = np.zeros((0,)), f"{type(e).__name__}: {e}"[:120]
+                    s = quant.gross(T, *[x for row in sg for x in row])
+                    finT, finS = bool(np.isfinite(T).all()), all(bool(np.isfinite(x).all()) for row in sg for x in row)
+                    ev = {"tid": tid0 + n, "kind": "batch", "what": "+".join(type(pal[i]).__name__ for i in arr) + (" " + raised if raised else ""), "arr": arr, "field": field,
+                          "T": quant.q12(T, s), "single": [[quant.q12(x, s) for x in row] for row in sg],
+                          "same": not (classes & CEL_BASED), "fin": finT and finS, "finT": finT, "finS": finS, "raised": bool(raised)}
                     f.write(json.dumps(ev, separators=(",", ":")) + "\n")
                     n += 1
-                    if len(set(arr)) == len(arr):
-                        coll = magpy.Collection(*[pal[i].copy() for i in arr])
-                        wc = np.asarray(fn(coll, sens, squeeze=False), dtype=float).reshape(-1, 3)
-                        ev = {"tid": tid0 + n, "kind": "super", "what": "collection:" + "+".join(type(pal[i]).__name__ for i in arr), "field": field, "whole": quant.q12(wc, s2),
-                              "parts": [quant.q12(p, s2) for p in parts], "fin": bool(np.isfinite(wc).all())}
+                    if raised:
+                        continue
+                    # superposition (C05): the summed-up call and the collection equal the sum of the SINGLE-source calls
+                    if len(arr) > 1 and field in "BH":
+                        Mx = T.shape[1]
+
+                        def alone(i):
+                            a = np.asarray(fn(pal[i], sens, squeeze=False), dtype=float)[0]           # (M_i, K, P, 3); shorter paths are static beyond their end
+                            if a.shape[0] < Mx:
+                                a = np.concatenate([a, np.repeat(a[-1:], Mx - a.shape[0], axis=0)])
+                            return a.reshape(-1, 3)
+                        whole = np.asarray(fn(srcs, sens, sumup=True, squeeze=False), dtype=float).reshape(-1, 3)
+                        parts = [alone(i) for i in arr]
+                        s2 = quant.gross(whole, *parts)
+                        ev = {"tid": tid0 + n, "kind": "super", "what": "sumup:" + "+".join(type(pal[i]).__name__ for i in arr), "field": field, "whole": quant.q12(whole, s2),
+                              "parts": [quant.q12(p, s2) for p in parts], "fin": bool(np.isfinite(whole).all())}
                         f.write(json.dumps(ev, separators=(",", ":")) + "\n")
                         n += 1
+                        if len(set(arr)) == len(arr):
+                            coll = magpy.Collection(*[pal[i].copy() for i in arr])
+                            wc = np.asarray(fn(coll, sens, squeeze=False), dtype=float).reshape(-1, 3)
+                            ev = {"tid": tid0 + n, "kind": "super", "what": "collection:" + "+".join(type(pal[i]).__name__ for i in arr), "field": field, "whole": quant.q12(wc, s2),
+                                  "parts": [quant.q12(p, s2) for p in parts], "fin": bool(np.isfinite(wc).all())}
+                            f.write(json.dumps(ev, separators=(",", ":")) + "\n")
+                            n += 1
             elif st["kind"] == "homog":
                 i = st["arr"][0]
                 dec = st["lin"][0]
